@@ -376,7 +376,11 @@ func loadGen(patterns []string, overlay map[string][]byte) (*Gen, error) {
 			visit(p.Types)
 		}
 	}
-	ct, err := loadAllContracts(repoDir, []string{filepath.Join(verifDir, "contracts", "ext"), filepath.Join(verifDir, "contracts", "lemmas")})
+	extDir := filepath.Join(verifDir, "contracts", "ext")
+	if d := os.Getenv("GOVC_EXT"); d != "" {
+		extDir = d // development only: an alternative directory of assumed contracts
+	}
+	ct, err := loadAllContracts(repoDir, []string{extDir, filepath.Join(verifDir, "contracts", "lemmas")})
 	if err != nil {
 		return nil, err
 	}
